@@ -48,6 +48,7 @@ type vcConn struct {
 	afterEOF int // what Read returns once the script is exhausted: 0 EOF, 1 timeout
 	ioAfterClose int
 	slept   bool
+	more    func(c *vcConn) // called when the script is exhausted and the client reads on: may append segments
 }
 
 func (c *vcConn) sleepOnce() {
@@ -71,6 +72,9 @@ func (c *vcConn) Read(b []byte) (int, error) {
 		return 0, vcTimeoutErr{}
 	case vcReadReset:
 		return 0, errVcReset
+	}
+	if c.next >= len(c.segs) && c.more != nil {
+		c.more(c)
 	}
 	if c.next >= len(c.segs) {
 		if c.afterEOF == 1 {
